@@ -30,8 +30,7 @@ Theorem C03_holds : forall m src inc o out_,
      exists v, o_pc_stages out_ = Some v /\ forall s, st_has v s = true <-> uses_stage m h s).
 Proof.
   intros m src inc o out_ Hwf Hgen. apply C03_ok_sound; [|eapply C03_ok_gen; eauto].
-  unfold wf in Hwf. apply andb_true_iff in Hwf as [Hwf _]. apply andb_true_iff in Hwf as [Hwf _].
-  apply andb_true_iff in Hwf as [_ Hwf]. exact Hwf.
+  apply wf_proj in Hwf as (_ & Hc & _). exact Hc.
 Qed.
 Print Assumptions C03_holds.
 
